@@ -18,19 +18,23 @@ def policyKey (p : Policy) (r : Row) : Int :=
 /-- a write with `cull_limit = 0` removes nothing -/
 theorem cull_zero (s : Cache) (now : Int) (h : s.cfg.cullLimit = 0) :
     (s.cullW now).1 = s ∧ (s.cullW now).2 = [] := by
-  sorry
+  unfold cullW
+  simp [h]
 
 /-- one write removes at most `cull_limit` rows and only removes (never adds or alters) -/
 theorem evict_bound (s : Cache) (now : Int) (hasc : RowidsAsc s.rows) :
     (s.cullW now).1.rows.Sublist s.rows ∧
-    s.rows.length ≤ (s.cullW now).1.rows.length + s.cfg.cullLimit := by
-  sorry
+    s.rows.length ≤ (s.cullW now).1.rows.length + s.cfg.cullLimit :=
+  ⟨cullW_sublist s now hasc, cullW_length s now hasc⟩
 
 /-- policy 'none' (Deque, Index) never evicts: only expired rows leave -/
 theorem policy_none_never (s : Cache) (now : Int) (hasc : RowidsAsc s.rows)
     (h : s.cfg.policy = .none) :
     ∀ r ∈ s.rows, r ∉ (s.cullW now).1.rows → expired now r = true := by
-  sorry
+  intro r hr hnot
+  cases hex : expired now r with
+  | true => rfl
+  | false => exact absurd h (cullW_removed s now hasc r hr hnot hex).1
 
 /-- below the size limit the policy part removes nothing: only expired rows leave.
 `pb` is the observed database size of the `volume()` call. -/
@@ -39,20 +43,33 @@ theorem evict_only_at_limit (s : Cache) (now : Int) (hasc : RowidsAsc s.rows) (p
     (hbelow : belowLimit s.cfg ((pb : Int) +
         (s.delIn ((s.selExpired now s.cfg.cullLimit).map (·.rowid))).size) = true) :
     ∀ r ∈ s.rows, r ∉ (s.cullW now).1.rows → expired now r = true := by
-  sorry
+  intro r hr hnot
+  cases hex : expired now r with
+  | true => rfl
+  | false =>
+    have h1 := (cullW_removed s now hasc r hr hnot hex).2.1 pb rest henv
+    rw [h1] at hbelow; cases hbelow
 
 /-- expired rows go first: if fewer than `cull_limit` rows were expired, none is left -/
 theorem expired_first (s : Cache) (now : Int) (hasc : RowidsAsc s.rows)
     (h : (s.rows.filter (expired now)).length ≤ s.cfg.cullLimit) :
     ∀ r ∈ (s.cullW now).1.rows, expired now r = false := by
-  sorry
+  intro r hr
+  cases hex : expired now r with
+  | false => rfl
+  | true =>
+    have hrs : r ∈ s.rows := (cullW_sublist s now hasc).subset hr
+    exact absurd (selExpired_all h hrs hex) (cullW_not_selExpired s now hasc r hr)
 
 /-- eviction order: every unexpired row evicted by the policy is no younger (in the
 policy's key: store time / access time / access count) than every surviving row -/
 theorem evict_order (s : Cache) (now : Int) (hasc : RowidsAsc s.rows) :
     ∀ v ∈ s.rows, v ∉ (s.cullW now).1.rows → expired now v = false →
     ∀ w ∈ (s.cullW now).1.rows, policyKey s.cfg.policy v ≤ policyKey s.cfg.policy w := by
-  sorry
+  intro v hv hnot hex w hw
+  have h := (cullW_removed s now hasc v hv hnot hex).2.2 w hw
+  revert h
+  cases s.cfg.policy <;> simp [policyLt, policyKey]
 
 /-- reads refresh the policy key: under LRU a successful `get` sets the access time to now,
 under LFU it increments the access count; `set` resets both -/
@@ -60,39 +77,44 @@ theorem read_refreshes (p : Policy) (now : Int) (r : Row) :
     (p = .lru → (touchPolicy p now r).accT = now) ∧
     (p = .lfu → (touchPolicy p now r).accN = r.accN + 1) ∧
     (touchPolicy p now r).key = r.key ∧ (touchPolicy p now r).rowid = r.rowid := by
-  sorry
+  cases p <;> simp [touchPolicy]
 
 /-- explicit `cull()`: afterwards no expired row remains -/
 theorem cull_no_expired (s : Cache) (now : Int) (hasc : RowidsAsc s.rows) (hp : 0 < s.cfg.page) :
     ∀ r ∈ (s.cull now).1.rows, expired now r = false := by
-  sorry
+  intro r hr
+  have := (List.mem_filter.1 ((cull_spec s now hasc hp).1.subset hr)).2
+  simpa using this
 
 /-- explicit `cull()` with policy 'none' removes exactly the expired rows and returns
 their number (fix D5: it used to return 0) -/
 theorem cull_none (s : Cache) (now : Int) (hasc : RowidsAsc s.rows) (hp : 0 < s.cfg.page)
     (h : s.cfg.policy = .none) :
     (s.cull now).1.rows = s.rows.filter (fun r => !(expired now r)) ∧
-    (s.cull now).2 = .int (s.rows.filter (expired now)).length := by
-  sorry
+    (s.cull now).2 = .int (s.rows.filter (expired now)).length :=
+  (cull_spec s now hasc hp).2.2 h
 
 /-- explicit `cull()` returns the number of rows it removed -/
 theorem cull_count (s : Cache) (now : Int) (hasc : RowidsAsc s.rows) (hp : 0 < s.cfg.page) :
     (s.cull now).2 = .int ((s.rows.length : Int) - (s.cull now).1.rows.length) := by
-  sorry
+  obtain ⟨k, hk, hlen⟩ := (cull_spec s now hasc hp).2.1
+  rw [hk]
+  exact congrArg Out.int (by omega)
 
 /-- the fuel of the policy loop of `cull()` is never what stops it: with batch ≥ 1 every
 round removes a row, so `rows + 1` rounds suffice for every observation sequence — the
 model loop is the `while volume() > size_limit` loop of the code, and it terminates -/
 theorem cullLoop_fuel (s : Cache) (n k : Nat) (hb : 0 < s.cfg.batch) (hasc : RowidsAsc s.rows) :
-    cullLoop (s.rows.length + 1 + k) s n = cullLoop (s.rows.length + 1) s n := by
-  sorry
+    cullLoop (s.rows.length + 1 + k) s n = cullLoop (s.rows.length + 1) s n :=
+  cullLoop_fuel_irrel _ _ s n hb hasc (by omega) (by omega)
 
 /-- one round of the policy loop: it stops exactly when the observed volume is within the
 limit or the table is empty -/
 theorem cullLoop_stop (s : Cache) (n fuel : Nat) (pb : Nat) (rest : List Nat) (henv : s.env = pb :: rest)
     (h : aboveLimit s.cfg ((pb : Int) + s.size) = false) :
     (cullLoop (fuel + 1) s n).1.rows = s.rows ∧ (cullLoop (fuel + 1) s n).2 = n := by
-  sorry
+  rw [cullLoop_succ, volume_snd_cons s pb rest henv, volume_cfg, h]
+  simp
 
 /-- non-vacuity: LRU table at its limit; the least recently used unexpired row goes -/
 def exLruRow (i : Nat) (acc : Int) (sz : Nat) : Row :=
@@ -106,3 +128,4 @@ def exLru : Cache :=
 example : ((exLru.cullW 40).1.rows.map (·.rowid)) = [1, 3] := by decide
 
 end DC.Cache
+
